@@ -8,12 +8,11 @@
    NOT proved here (notes/C19.md, "Not proved (tested only)"): that [registered]/[enabled] of the TightVNC
    gate correspond to rfbRegisterTightVNCFileTransferExtension / the extension list (a bare boolean in the
    model); the default permitFileTransfer = FALSE (a constant checked by the harness only); anything about the
-   TightVNC download thread and data transfer; the TightVNC root being non-empty (false: F19e below); a
-   stand-alone trace theorem for the chunk sender beyond its entry guard; file-system level confinement
+   TightVNC download thread and data transfer; the TightVNC root being non-empty (false: F19e below); file-system level confinement
    (symbolic links) for either protocol. *)
 From Coq Require Import ZArith List Bool.
 From LV Require Import Gen.Consts_C19 Session.FileXferDefs Session.FileXferProofs Session.FileXferHoare
-  Session.FileXferTrace Session.FileXferLeak Session.FileXferTight Session.FileXferTightProofs.
+  Session.FileXferTrace Session.FileXferLeak Session.FileXferHistory Session.FileXferTight Session.FileXferTightProofs.
 Import ListNotations.
 Local Open Scope Z_scope.
 
@@ -66,11 +65,12 @@ Proof. exact entry_send_chunk. Qed.
    zlib call other than close/closedir, or bytes sent)
      - is preceded by no rfbCloseClient of this message (nothing happens after a refusal), and
      - if it is a path-taking call, its path is the translation of a name the client sent in this
-       very message; for stat: or  d ++ "/" ++ n  with d such a translation and n WHATEVER the readdir oracle
-       answered (the model does not constrain n: the operating system guarantees that a directory entry has
-       no '/', and ".." is a real entry that rfbSendDirContent does stat).  Calls that take a descriptor
-       instead of a path (read, write, close, closedir, readdir, fstat, zlib) are NOT constrained by
-       [allowed_op] beyond happening before the refusal. *)
+       very message; for stat: or  d ++ "/" ++ n  with d such a translation and n a directory entry WITHOUT '/'
+       (an oracle answer containing '/' is not a directory entry: the model stops with ModelErr; ".." is a real
+       entry that rfbSendDirContent does stat).  Calls that take a descriptor instead of a path (read, write,
+       close, closedir, readdir, fstat, zlib) are not constrained by [allowed_op] itself; they act on the model's two
+       descriptor variables, which are assigned only by the open/opendir calls bounded here and, over whole
+       histories, by C19_history_paths_translated / C19_history_opens_translated below. *)
 Theorem C19_effects_guarded_and_paths_translated : forall cfg ct cp sz len w0 l pre e post,
   sock_open (w_st w0) = true ->
   msg_trace cfg ct cp sz len w0 l -> l = pre ++ e :: post -> is_effect e = true ->
@@ -85,6 +85,25 @@ Theorem C19_message_trace_ok : forall cfg w0,
   sock_open (w_st w0) = true ->
   Inv (allowed_op cfg (message_names (w_in w0))) (w_ev w0) (snd (handle_message cfg w0)).
 Proof. exact message_trace_ok_names. Qed.
+
+(* the path discipline over whole connection histories: EVERY path-taking call anywhere in the history of a
+   connection (messages, chunk-sender calls, moves of the outside world, open or closed socket) is allowed for the
+   names of the message that made it ... *)
+Theorem C19_history_paths_translated : forall cfg w,
+  reachable cfg w -> Forall (path_ok cfg) (w_ev w).
+Proof. exact history_paths_translated. Qed.
+
+(* ... so every descriptor the descriptor-taking calls (read, write, fstat, close, readdir, closedir) can act on
+   comes from an open / opendir of a translated client name ... *)
+Theorem C19_history_opens_translated : forall cfg w p,
+  reachable cfg w -> (In (Fs (FOpenR p)) (w_ev w) \/ In (Fs (FOpenW p)) (w_ev w) \/ In (Fs (FOpendir p)) (w_ev w)) ->
+  exists nm, translate_pure (home cfg) nm C19_MAX_PATH = Some p.
+Proof. exact history_opens_translated. Qed.
+
+(* ... and the chunk sender (rfbSendFileTransferChunk) makes no path-taking call at all, nothing after a refusal *)
+Theorem C19_chunk_sender_no_path_call : forall cfg w,
+  sock_open (w_st w) = true -> Inv (allowed_op cfg []) (w_ev w) (snd (send_chunk cfg w)).
+Proof. exact chunk_sender_no_path_call. Qed.
 
 (* UltraVNC protocol only, one step: rfbClientConnectionGone closes the descriptor recorded in
    cl->fileTransfer.fd (tree since fix commit 4d56b95, [fix_f7 = true]); descriptors lost earlier ([lost_fds])
